@@ -1,5 +1,58 @@
 import Asn1Verif.Base.Text
-/- line protocol, stream `names` — not implemented yet -/
+import Asn1Verif.Codegen.Names
+/- line protocol, stream `names` (C09): the mangling functions of both layers, answered by the model -/
 namespace Driver.NamesStream
-def handle (_args : List String) : String := "bad-op"
+open Asn1Verif Asn1Verif.Text Asn1Verif.Codegen.Names
+
+/-- hex of ASCII bytes → characters; `none` = malformed, `some none` = contains a non-ASCII byte -/
+def nameOfHex (s : String) : Option (Option Name) :=
+  match hexToBytes s with
+  | none => none
+  | some bs =>
+    if bs.all (fun b => b.toNat < 128) then some (some (bs.map fun b => Char.ofNat b.toNat))
+    else some none
+
+def hexOfName (n : Name) : String :=
+  bytesToHex (n.map fun c => BitVec.ofNat 8 c.toNat)
+
+def run1 (hex : String) (f : Name → Name) : String :=
+  match nameOfHex hex with
+  | none => "bad-op"
+  | some none => "skip"
+  | some (some n) => "ok " ++ hexOfName (f n)
+
+def handle (args : List String) : String :=
+  match args with
+  | ["a.field", h] => run1 h fieldA
+  | ["a.variant", h] => run1 h variantA
+  | ["a.type", h] => run1 h structOrEnumA
+  | ["a.const", h] => run1 h constantA
+  | ["a.module", h, pad] =>
+    match parseBool pad with
+    | some p => run1 h (moduleA p)
+    | none => "bad-op"
+  | ["a.nice", h] => run1 h makeNameNice
+  | ["b.field", h, chk] =>
+    match parseBool chk with
+    | some c => run1 h (fieldB c)
+    | none => "bad-op"
+  | ["b.variant", h] => run1 h variantB
+  | ["b.module", h] => run1 h moduleB
+  | ["emit.field", h] => run1 h emitField
+  | ["emit.variant", h] => run1 h emitVariant
+  | ["emit.type", h] => run1 h emitType
+  | ["emit.const", h] => run1 h emitConst
+  | ["emit.module", h] => run1 h emitModule
+  | ["emit.inline", hp, hf] =>
+    match nameOfHex hp, nameOfHex hf with
+    | some (some p), some (some f) => "ok " ++ hexOfName (emitInline (emitType p) f)
+    | none, _ => "bad-op"
+    | _, none => "bad-op"
+    | _, _ => "skip"
+  | ["iskw", h] => run1 h (fun n => if isRustKeyword n then ['1'] else ['0'])
+  | "gen" :: _ => "skip"
+  | "emit" :: _ => "skip"
+  | "text" :: _ => "skip"
+  | _ => "bad-op"
+
 end Driver.NamesStream
